@@ -141,3 +141,24 @@ func TestKF_ScanShowsUncommitted(t *testing.T) {
 		return nil
 	})
 }
+
+func TestKF_TombstoneConsumesLimit(t *testing.T) {
+	db, dir := kfOpen(t, HintKeyValAndRAMIdxMode, 4096)
+	defer os.RemoveAll(dir)
+	_ = db.Update(func(tx *Tx) error {
+		for _, k := range []string{"ka", "kb", "kc"} {
+			if err := tx.Put("b", []byte(k), []byte("v"), 0); err != nil {
+				return err
+			}
+		}
+		return nil
+	})
+	_ = db.Update(func(tx *Tx) error { return tx.Delete("b", []byte("ka")) })
+	_ = db.View(func(tx *Tx) error {
+		es, _, err := tx.PrefixScan("b", []byte("k"), 0, 1)
+		if err != nil || len(es) != 1 || string(es[0].Key) != "kb" {
+			t.Errorf("REPRODUCED: PrefixScan(k,0,1) = (%d entries, %v) although kb and kc are live: the deleted ka consumed the limit", len(es), err)
+		}
+		return nil
+	})
+}
